@@ -1,12 +1,13 @@
 BASE = ['@world/world_base.c', '@world/libc_models.c', '@harness/C14/stubs.c', '@harness/C12/stubs.c']
 def jobs(tier, ctx):
     out = []
+    txt = 2 if tier == 'quick' else 4
     for cur in range(3):
-        out.append(dict(name='cmd_step.cursor%d' % cur, srcs=['@harness/C12/cmd_step.c'], stubs=BASE, defs=['CURSOR=%d' % cur], unwind=8,
-                        targets=['get_user_command', 'first_cmd_in_buf', 'next_cmd_in_buf', 'cmd_in_buf', 'telnet_neg'], timeout=600, mem_gb=12,
-                        opt_witness=['served_after_skipping'],
+        out.append(dict(name='cmd_step.cursor%d' % cur, srcs=['@harness/C12/cmd_step.c'], stubs=BASE, defs=['CURSOR=%d' % cur, 'TXT=%d' % txt], unwind=8,
+                        targets=['get_user_command', 'first_cmd_in_buf', 'next_cmd_in_buf', 'cmd_in_buf', 'telnet_neg'], timeout=(600 if tier == 'quick' else 1500), mem_gb=13,
+                        opt_witness=['served_after_skipping', 'somebody_served', 'nobody_served'],
                         desc='one get_user_command() call on an arbitrary 3-slot connection table (holes, flags, queued bytes symbolic), cursor=%d: step contract of DESIGN 5/C12' % cur,
-                        inputs='presence, iflags, text_start, queued bytes (<=4 per user) of each slot',
+                        inputs='presence, iflags, text_start, queued bytes (<=%d per user) of each slot' % txt,
                         assumptions=['hook verif_cmd_cursor positions the rotating cursor (add-only, guarded)', 'output pending = 0 (flush path is C14); no NOECHO (termios path cut); no backspace/delete bytes (C13)',
                                      'the per-cycle grant loop of backend() and command() are outside this step (argued in DESIGN 5/C12)']))
     return out
